@@ -62,7 +62,65 @@ def c03_1(ctx):
                          init={key: ISet.range(0, 255)}, what="SEC tag byte " + key)
 
 
+def _ctor_cells(ctx):
+    if not hasattr(ctx, "_c03_ctor"):
+        ctx._c03_ctor = _ctor_cells_(ctx)
+    return ctx._c03_ctor
+
+
+def _ctor_cells_(ctx):
+    """Point.__init__ is written for any prime field: it is evaluated on EVERY pair (x, y) of F_5, F_7, F_11, F_13 with the curve y^2 = x^3 + 7
+    (and on the pair (None, None)): the constructor returns exactly for the pairs on the curve and for infinity, raises for every other pair,
+    and keeps the coordinates it was given"""
+    from sa.cells import Evaluator, Obj, Raised, Undecided
+    spec = "pecc:Point.__init__"
+    mod, fn = rl.get(ctx, spec)
+
+    def fe(n, p):
+        return Obj("pecc", "FieldElement", {"num": n, "prime": p})
+    total = 0
+    try:
+        for p in (5, 7, 11, 13):
+            for x in [None] + list(range(p)):
+                for y in ([None] if x is None else list(range(p))):
+                    total += 1
+                    on = x is None or (y * y - x ** 3 - 7) % p == 0
+                    me = Obj("pecc", "Point", {})
+                    name = "infinity" if x is None else "(%d, %d)" % (x, y)
+                    try:
+                        Evaluator(ctx.repo).call(spec, [None if x is None else fe(x, p), None if y is None else fe(y, p), fe(0, p), fe(7 % p, p)], self_obj=me)
+                        acc = True
+                    except Raised as r_:
+                        acc = False
+                        exc = r_.name
+                    if acc and not on:
+                        return [ctx.bad(spec, "over F_%d the pair %s, which is not on y^2 = x^3 + 7, is accepted as a point" % (p, name), fn, mod, key="ctor-cells")]
+                    if not acc and on:
+                        return [ctx.bad(spec, "over F_%d the point %s of y^2 = x^3 + 7 is refused (%s)" % (p, name, exc), fn, mod, key="ctor-cells")]
+                    if acc:
+                        gx, gy = me.attrs.get("x"), me.attrs.get("y")
+                        got = (None, None) if gx is None and gy is None else (gx.attrs.get("num") if isinstance(gx, Obj) else gx, gy.attrs.get("num") if isinstance(gy, Obj) else gy)
+                        if got != (x, y):
+                            return [ctx.bad(spec, "over F_%d the point %s is stored with coordinates %s" % (p, name, got), fn, mod, key="ctor-cells")]
+    except Undecided as u:
+        return [ctx.err(spec, "point constructor not evaluable: %s" % u, fn, mod)]
+    ctx.count("cells", total)
+    return [ctx.ok(spec, "all %d pairs (x, y) of F_5, F_7, F_11, F_13 and infinity: accepted exactly when on y^2 = x^3 + 7, coordinates kept" % total, fn, mod, key="ctor-cells")]
+
+
+def c03_23(ctx):
+    """CELLS constructor membership: every coordinate pair of four small fields"""
+    return _ctor_cells(ctx)
+
+
 def c03_2(ctx):
+    """Point.__init__: every normal exit with coordinates passes the curve equation (GUARD); when the test is not in the constructor's own
+    body in the form the rule reads, the constructor cells (C03.23) decide"""
+    return rl.defer(ctx, _c03_2_struct(ctx), lambda: _ctor_cells(ctx), "decided by the constructor cells (C03.23: every coordinate pair of F_5, F_7, F_11, F_13 is accepted exactly when "
+                    "it is on the curve); the membership test is not in the place this rule looks")
+
+
+def _c03_2_struct(ctx):
     """Point.__init__: every normal exit with coordinates passes the curve equation"""
     spec = "pecc:Point.__init__"
 
@@ -1319,6 +1377,7 @@ def c03_22(ctx):
 
 OBLIGATIONS = [
     ("C03.22", "CELLS membership by spelling", c03_22),
+    ("C03.23", "CELLS constructor membership", c03_23),
     ("C03.20", "CELLS small fields (bounded)", c03_20),
     ("C03.21", "CELLS identity operands", c03_21),
     ("C03.19", "RANGE accept-set (shared C01.6)", c03_19),
